@@ -457,6 +457,24 @@ func ruleR203(p *Program, r *Report) {
 		return
 	}
 	{
+		// both sides decode the entry with the same JSON decoding calls (number handling must agree)
+		dec := func(fn *ssa.Function) string {
+			var names []string
+			for _, cs := range callsIn(fn) {
+				if cs.Callee != nil && cs.Callee.Pkg() != nil && cs.Callee.Pkg().Path() == "encoding/json" {
+					switch cs.Callee.Name() {
+					case "Unmarshal", "NewDecoder", "UseNumber", "Decode", "DisallowUnknownFields":
+						names = append(names, cs.Callee.Name())
+					}
+				}
+			}
+			sortStrings(names)
+			return strings.Join(names, "+")
+		}
+		a, b := dec(hook), dec(jp)
+		r.Check(a == b && a != "", "R20.3", fnName(hook), "JSON writer and parser decode the entry the same way", p.Pos(hook.Pos()), "both: "+a, "the hook decodes with ["+a+"] and the parser with ["+b+"]: values whose textual form depends on the decoder (large integers, number vs float) are authenticated differently on the two sides")
+	}
+	{
 		conv := callNamedIn(hook, "convertMapToBytes")
 		calc := callNamedIn(hook, "CalculateIntegrityCheck")
 		okW := conv != nil && calc != nil && plainArgs(calc)[0] == ssa.Value(extractOf(conv, 0))
@@ -503,6 +521,14 @@ func ruleR203(p *Program, r *Report) {
 			}
 		}
 		r.Check(okP && dels >= 2 && rawOK, "R20.3", fnName(jp), "JSON parser authenticates the map without integrity and chain=new", p.Pos(jp.Pos()), "delete(integrity), delete(chain) on 'new', then convertMapToBytes", "the JSON parser recomputes the tag over a map that differs from what the hook authenticated")
+	}
+}
+
+func sortStrings(a []string) {
+	for i := 1; i < len(a); i++ {
+		for j := i; j > 0 && a[j] < a[j-1]; j-- {
+			a[j], a[j-1] = a[j-1], a[j]
+		}
 	}
 }
 
@@ -582,5 +608,6 @@ func init() {
 	mut("C20", "plaintext parser splits on the first occurrence (original defect)", "logging/log_entry_parser.go", "	tokenIndex := strings.LastIndex(rawData, DataSplitToken)\n	if tokenIndex < 0 {\n		return nil, ErrPlaintextIntegrityExtract\n	}", "	tokenIndex := strings.Index(rawData, DataSplitToken)\n	if tokenIndex < 0 {\n		return nil, ErrPlaintextIntegrityExtract\n	}", "R20.3", "last")
 	mut("C20", "writer appends the key before computing the tag", "logging/logging.go", "	integrity, newChain, err := integrityCalculator.CalculateIntegrityCheck(formatted.Bytes())\n	if err != nil {\n		return err\n	}\n	formatted.WriteString(SpaceDelimiter + IntegrityKey + EquallyDelimiter)", "	formatted.WriteString(SpaceDelimiter + IntegrityKey + EquallyDelimiter)\n	integrity, newChain, err := integrityCalculator.CalculateIntegrityCheck(formatted.Bytes())\n	if err != nil {\n		return err\n	}", "R20.3", "formatted bytes")
 	mut("C20", "JSON parser keeps the integrity key in the authenticated map", "logging/log_entry_parser.go", "	delete(parsed, IntegrityKey)\n", "", "R20.3", "JSON parser")
+	mut("C20", "JSON hook keeps numbers exact, parser does not", "logging/logging.go", "	parsed := make(map[string]interface{})\n	err := json.Unmarshal(formatted.Bytes(), &parsed)\n	if err != nil {\n		return err\n	}\n	logEntryDataBytes, err := convertMapToBytes(parsed)", "	parsed := make(map[string]interface{})\n	jd := json.NewDecoder(bytes.NewReader(formatted.Bytes()))\n	jd.UseNumber()\n	err := jd.Decode(&parsed)\n	if err != nil {\n		return err\n	}\n	logEntryDataBytes, err := convertMapToBytes(parsed)", "R20.3", "decode the entry the same way")
 	mut("C20", "reader back to a scanner without Err (original defect)", "logging/logging.go", "	reader := bufio.NewReader(f)\n	for {\n		line, readErr := reader.ReadString('\\n')\n		if len(line) > 0 {", "	reader := bufio.NewReader(f)\n	sc := bufio.NewScanner(f)\n	for sc.Scan() {\n		_ = sc.Text()\n	}\n	for {\n		line, readErr := reader.ReadString('\\n')\n		if len(line) > 0 {", "R20.4", "read error")
 }
